@@ -1,3 +1,573 @@
+(* ValuesProofs.v — proofs about Values.v (C07).  Main result: `history_refines` — for every store whose circuit
+   objects are reached at most once (D27 guard) and every finite history of update_var / edge updates / observations,
+   the store-based implementation model produces the outputs of the tree specification and its abstraction follows
+   the specification state.  `tget_tset` is the frame property of the specification. *)
 From Coq Require Import List String Arith Bool QArith Qcanon Lia.
 From PV Require Import Heap Values.
 Import ListNotations.
+Open Scope nat_scope.
+
+(* ------------------------------------------------------------------ mapM *)
+Lemma mapM_ext_in {A B} (f g : A -> option B) l : (forall x, In x l -> f x = g x) -> mapM f l = mapM g l.
+Proof.
+  induction l as [|x l IH]; intros H; cbn; [reflexivity|].
+  rewrite (H x (or_introl eq_refl)), IH; [reflexivity|]. intros y Hy. apply H. now right.
+Qed.
+Lemma mapM_cons_inv {A B} (f : A -> option B) x l r : mapM f (x :: l) = Some r ->
+  exists y r', f x = Some y /\ mapM f l = Some r' /\ r = y :: r'.
+Proof. cbn. destruct (f x); [|discriminate]. destruct (mapM f l); [|discriminate]. intros [= <-]. eauto. Qed.
+Lemma mapM_app_inv {A B} (f : A -> option B) a b r : mapM f (a ++ b) = Some r ->
+  exists ra rb, mapM f a = Some ra /\ mapM f b = Some rb /\ r = ra ++ rb.
+Proof.
+  revert r; induction a as [|x a IH]; intros r H; cbn in *.
+  - exists [], r. auto.
+  - destruct (f x); [|discriminate]. destruct (mapM f (a ++ b)) eqn:E; [|discriminate]. injection H as <-.
+    destruct (IH _ eq_refl) as (ra & rb & -> & -> & ->). exists (b0 :: ra), rb. auto.
+Qed.
+Lemma mapM_app {A B} (f : A -> option B) a b ra rb : mapM f a = Some ra -> mapM f b = Some rb ->
+  mapM f (a ++ b) = Some (ra ++ rb).
+Proof.
+  revert ra; induction a as [|x a IH]; intros ra Ha Hb; cbn in *.
+  - injection Ha as <-. assumption.
+  - destruct (f x); [|discriminate]. destruct (mapM f a); [|discriminate]. injection Ha as <-.
+    now rewrite (IH _ eq_refl Hb).
+Qed.
+Lemma mapM_Some_in {A B} (f : A -> option B) l r x : mapM f l = Some r -> In x l -> exists y, f x = Some y /\ In y r.
+Proof.
+  revert r; induction l as [|a l IH]; intros r H Hin; [destruct Hin|].
+  apply mapM_cons_inv in H as (y & r' & Hy & Hr & ->). destruct Hin as [<-|Hin].
+  - exists y. split; [assumption|now left].
+  - destruct (IH _ Hr Hin) as (z & ? & ?). exists z. split; [assumption|now right].
+Qed.
+
+(* ------------------------------------------------------------------ dictionaries *)
+Lemma dget_split {V} k (l : list (string * V)) v : dget k l = Some v ->
+  exists l1 l2, l = l1 ++ (k, v) :: l2 /\ dget k l1 = None.
+Proof.
+  induction l as [|[k' v'] l IH]; cbn; [discriminate|]. destruct (String.eqb k k') eqn:E.
+  - intros [= ->]. apply String.eqb_eq in E as <-. exists [], l. auto.
+  - intros H. destruct (IH H) as (l1 & l2 & -> & Hn). exists ((k', v') :: l1), l2. split; [reflexivity|]. cbn. now rewrite E.
+Qed.
+Lemma dset_split {V} k (l1 l2 : list (string * V)) v v' : dget k l1 = None ->
+  dset k v' (l1 ++ (k, v) :: l2) = l1 ++ (k, v') :: l2.
+Proof.
+  induction l1 as [|[k' w] l1 IH]; cbn.
+  - now rewrite String.eqb_refl.
+  - destruct (String.eqb k k'); [discriminate|]. intros H. now rewrite IH.
+Qed.
+Lemma dget_app_None {V} k (l1 l2 : list (string * V)) : dget k l1 = None -> dget k (l1 ++ l2) = dget k l2.
+Proof. induction l1 as [|[k' w] l1 IH]; cbn; [reflexivity|]. destruct (String.eqb k k'); [discriminate|auto]. Qed.
+Lemma dget_here {V} k (l1 l2 : list (string * V)) v : dget k l1 = None -> dget k (l1 ++ (k, v) :: l2) = Some v.
+Proof. intros H. rewrite dget_app_None by assumption. cbn. now rewrite String.eqb_refl. Qed.
+
+Lemma lift_keys {A B} (f : A -> option B) l s : mapM (lift f) l = Some s -> map fst s = map fst l.
+Proof.
+  revert s; induction l as [|[k x] l IH]; intros s H.
+  - injection H as <-. reflexivity.
+  - apply mapM_cons_inv in H as (y & r' & Hy & Hr & ->). unfold lift in Hy. cbn in Hy.
+    destruct (f x); [|discriminate]. injection Hy as <-. cbn. now rewrite (IH _ Hr).
+Qed.
+Lemma lift_dget_None {A B} (f : A -> option B) l s k : mapM (lift f) l = Some s -> dget k l = None -> dget k s = None.
+Proof.
+  revert s; induction l as [|[k' x] l IH]; intros s H Hn.
+  - injection H as <-. reflexivity.
+  - apply mapM_cons_inv in H as (y & r' & Hy & Hr & ->). unfold lift in Hy. cbn in Hy.
+    destruct (f x); [|discriminate]. injection Hy as <-. cbn in *. destruct (String.eqb k k'); [discriminate|eauto].
+Qed.
+Lemma lift_dget_Some {A B} (f : A -> option B) l s k x : mapM (lift f) l = Some s -> dget k l = Some x ->
+  exists y, f x = Some y /\ dget k s = Some y.
+Proof.
+  revert s; induction l as [|[k' x'] l IH]; intros s H Hg; [discriminate|].
+  apply mapM_cons_inv in H as (y & r' & Hy & Hr & ->). unfold lift in Hy. cbn in Hy.
+  destruct (f x') eqn:E; [|discriminate]. injection Hy as <-. cbn in *. destruct (String.eqb k k').
+  - injection Hg as <-. eauto.
+  - eauto.
+Qed.
+Lemma lift_dhas {A B} (f : A -> option B) l s k : mapM (lift f) l = Some s -> dhas k s = dhas k l.
+Proof.
+  intros H. unfold dhas. destruct (dget k l) eqn:E.
+  - destruct (lift_dget_Some _ _ _ _ _ H E) as (y & _ & ->). reflexivity.
+  - now rewrite (lift_dget_None _ _ _ _ H E).
+Qed.
+(* split of a lifted mapM at the first entry named k *)
+Lemma lift_split {A B} (f : A -> option B) l1 l2 k x s : mapM (lift f) (l1 ++ (k, x) :: l2) = Some s ->
+  exists s1 y s2, mapM (lift f) l1 = Some s1 /\ f x = Some y /\ mapM (lift f) l2 = Some s2 /\ s = s1 ++ (k, y) :: s2.
+Proof.
+  intros H. apply mapM_app_inv in H as (s1 & r & H1 & H2 & ->).
+  apply mapM_cons_inv in H2 as (y & s2 & Hy & H2 & ->). unfold lift in Hy. cbn in Hy.
+  destruct (f x) eqn:E; [|discriminate]. injection Hy as <-. exists s1, b, s2. auto.
+Qed.
+Lemma mapM_lift_rel {A B C} (f : A -> option B) (P : string -> A -> option C) (Q : string -> B -> option C) l s :
+  mapM (lift f) l = Some s ->
+  (forall k x y, In (k, x) l -> f x = Some y -> P k x = Q k y) ->
+  mapM (fun e => P (fst e) (snd e)) l = mapM (fun e => Q (fst e) (snd e)) s.
+Proof.
+  revert s; induction l as [|[k x] l IH]; intros s H HPQ.
+  - injection H as <-. reflexivity.
+  - apply mapM_cons_inv in H as (y & r' & Hy & Hr & ->). unfold lift in Hy. cbn in Hy.
+    destruct (f x) eqn:E; [|discriminate]. injection Hy as <-. cbn.
+    rewrite (HPQ k x b (or_introl eq_refl) E). rewrite (IH _ Hr); [reflexivity|].
+    intros. eapply HPQ; eauto. now right.
+Qed.
+
+(* ------------------------------------------------------------------ NoDup over appended lists *)
+Lemma NoDup_app_parts {A} (a b : list A) : NoDup (a ++ b) -> NoDup a /\ NoDup b /\ (forall x, In x a -> In x b -> False).
+Proof.
+  induction a as [|x a IH]; cbn; intros H.
+  - repeat split; [constructor|assumption|intros ? []].
+  - inversion H as [|? ? Hx Hr]; subst. destruct (IH Hr) as (Ha & Hb & Hd). repeat split.
+    + constructor; [|assumption]. intros Hin. apply Hx. apply in_or_app. now left.
+    + assumption.
+    + intros y [<-|Hy] Hyb; [apply Hx; apply in_or_app; now right|eauto].
+Qed.
+
+Lemma nodupb_NoDup l : nodupb l = true <-> NoDup l.
+Proof.
+  induction l as [|x l IH]; cbn; [split; [constructor|reflexivity]|].
+  rewrite andb_true_iff, negb_true_iff, IH. split.
+  - intros [H1 H2]. constructor; [|assumption]. intros Hin.
+    assert (existsb (Nat.eqb x) l = true) by (apply existsb_exists; exists x; split; [assumption|apply Nat.eqb_refl]). congruence.
+  - intros H. inversion H as [|? ? Hx Hr]; subst. split; [|assumption].
+    destruct (existsb (Nat.eqb x) l) eqn:E; [|reflexivity]. apply existsb_exists in E as (y & Hy & Hxy).
+    apply Nat.eqb_eq in Hxy as <-. contradiction.
+Qed.
+
+(* ------------------------------------------------------------------ the abstraction is stable under store changes
+   that keep every non-circuit object and every circuit object of the tree *)
+Lemma op_den_stable h h' e o : op_den h e = Some o ->
+  (forall i ob, lookup h i = Some ob -> is_circ ob = false -> lookup h' i = Some ob) -> op_den h' e = Some o.
+Proof.
+  unfold op_den. intros H Hs. destruct (lookup h (fst e)) as [[n eqs dd| |]|] eqn:E; try discriminate.
+  now rewrite (Hs _ _ E eq_refl).
+Qed.
+Lemma node_den_stable h h' n a : node_den h n = Some a ->
+  (forall i ob, lookup h i = Some ob -> is_circ ob = false -> lookup h' i = Some ob) -> node_den h' n = Some a.
+Proof.
+  unfold node_den. intros H Hs. destruct (lookup h n) as [[| ops |]|] eqn:E; try discriminate.
+  rewrite (Hs _ _ E eq_refl). rewrite <- H. apply mapM_ext_in. intros e He.
+  destruct (mapM_Some_in _ _ _ _ H He) as (o & Ho & _). rewrite Ho. eapply op_den_stable; eauto.
+Qed.
+Lemma abs_root d h c t : abs d h c = Some t -> In c (circ_ids t) /\ exists ch es, lookup h c = Some (OCirc ch es).
+Proof.
+  destruct d; cbn; destruct (lookup h c) as [[| |ch es]|]; try discriminate.
+  - destruct (mapM _ ch); [|discriminate]. intros [= <-]. cbn. eauto.
+  - destruct (mapM _ ch); [|discriminate]. intros [= <-]. cbn. eauto.
+Qed.
+Lemma abs_stable d : forall h h' c t, abs d h c = Some t ->
+  (forall i ob, lookup h i = Some ob -> (is_circ ob = true -> In i (circ_ids t)) -> lookup h' i = Some ob) ->
+  abs d h' c = Some t.
+Proof.
+  induction d as [|d IH]; intros h h' c t H Hs.
+  - cbn in *. destruct (lookup h c) as [[| |ch es]|] eqn:E; try discriminate.
+    destruct (mapM (lift (node_den h)) ch) as [ns|] eqn:M; [|discriminate]. injection H as <-.
+    rewrite (Hs _ _ E) by (intros _; cbn; auto).
+    replace (mapM (lift (node_den h')) ch) with (Some ns); [reflexivity|].
+    rewrite <- M. apply mapM_ext_in. intros [k x] Hx. destruct (mapM_Some_in _ _ _ _ M Hx) as (y & Hy & _).
+    unfold lift in *. cbn in *. destruct (node_den h x) eqn:N; [|discriminate].
+    erewrite node_den_stable; eauto. intros i ob Hi Hc. apply Hs; [assumption|]. intros Hc'. congruence.
+  - cbn in *. destruct (lookup h c) as [[| |ch es]|] eqn:E; try discriminate.
+    destruct (mapM (lift (abs d h)) ch) as [ss|] eqn:M; [|discriminate]. injection H as <-.
+    rewrite (Hs _ _ E) by (intros _; cbn; auto).
+    replace (mapM (lift (abs d h')) ch) with (Some ss); [reflexivity|].
+    rewrite <- M. apply mapM_ext_in. intros [k x] Hx. destruct (mapM_Some_in _ _ _ _ M Hx) as (y & Hy & Hin).
+    unfold lift in *. cbn in *. destruct (abs d h x) eqn:N; [|discriminate]. injection Hy as <-.
+    erewrite IH; eauto. intros i ob Hi Hc. apply Hs; [assumption|]. intros Hc'. cbn. right.
+    apply in_flat_map. exists (k, a). split; [assumption|]. cbn. auto.
+Qed.
+Lemma abs_extends d h h' c t : abs d h c = Some t -> extends h h' -> abs d h' c = Some t.
+Proof. intros H He. eapply abs_stable; eauto. intros. eapply extends_lookup; eauto. Qed.
+
+Lemma circ_ids_are_circuits d : forall h c t i, abs d h c = Some t -> In i (circ_ids t) ->
+  exists ch es, lookup h i = Some (OCirc ch es).
+Proof.
+  induction d as [|d IH]; intros h c t i H Hin.
+  - pose proof (abs_root _ _ _ _ H) as (_ & ch & es & E). cbn in H. rewrite E in H.
+    destruct (mapM _ ch); [|discriminate]. injection H as <-. cbn in Hin. destruct Hin as [<-|[]]. eauto.
+  - pose proof (abs_root _ _ _ _ H) as (_ & ch & es & E). cbn in H. rewrite E in H.
+    destruct (mapM (lift (abs d h)) ch) as [ss|] eqn:M; [|discriminate]. injection H as <-. cbn in Hin.
+    destruct Hin as [<-|Hin]; [eauto|]. apply in_flat_map in Hin as ([k s] & Hs & Hi). cbn in Hi.
+    assert (exists x, In (k, x) ch /\ abs d h x = Some s) as (x & _ & Hx).
+    { clear -M Hs. revert ss M Hs. induction ch as [|[k' x'] ch IHc]; intros ss M Hs.
+      - injection M as <-. destruct Hs.
+      - apply mapM_cons_inv in M as (y & r' & Hy & Hr & ->). unfold lift in Hy. cbn in Hy.
+        destruct (abs d h x') eqn:N; [|discriminate]. injection Hy as <-. destruct Hs as [[= <- <-]|Hs].
+        + exists x'. split; [now left|assumption].
+        + destruct (IHc _ Hr Hs) as (x & ? & ?). exists x. split; [now right|assumption]. }
+    eauto.
+Qed.
+
+(* ------------------------------------------------------------------ get_node_template / get_nodes / has_var *)
+Lemma get_node_template_equiv d : forall h c t n, abs d h c = Some t ->
+  match get_node_template d h c n with
+  | Some nid => exists a, node_den h nid = Some a /\ tget_node t n = Some a
+  | None => tget_node t n = None
+  end.
+Proof.
+  induction d as [|d IH]; intros h c t n H.
+  - cbn in *. destruct (lookup h c) as [[| |ch es]|] eqn:E; try discriminate.
+    destruct (mapM (lift (node_den h)) ch) as [ns|] eqn:M; [|discriminate]. injection H as <-.
+    destruct n as [|p rest]; [reflexivity|]. cbn. destruct (dget p ch) as [x|] eqn:G.
+    + destruct (lift_dget_Some _ _ _ _ _ M G) as (a & Ha & Hg). eauto.
+    + eapply lift_dget_None; eauto.
+  - cbn in H. cbn [get_node_template]. destruct (lookup h c) as [[| |ch es]|] eqn:E; try discriminate.
+    destruct (mapM (lift (abs d h)) ch) as [ss|] eqn:M; [|discriminate]. injection H as <-.
+    destruct n as [|p rest]; [reflexivity|]. cbn. destruct (dget p ch) as [x|] eqn:G.
+    + destruct (lift_dget_Some _ _ _ _ _ M G) as (s & Hs & Hg). rewrite Hg. apply IH. assumption.
+    + now rewrite (lift_dget_None _ _ _ _ M G).
+Qed.
+
+Lemma has_var_equiv d h r t n op var : abs d h r = Some t -> has_var d h r n op var = thas_var t n op var.
+Proof.
+  intros H. unfold has_var, thas_var. pose proof (get_node_template_equiv d h r t n H) as G.
+  destruct (get_node_template d h r n) as [nid|].
+  - destruct G as (a & -> & ->). reflexivity.
+  - now rewrite G.
+Qed.
+
+Lemma map_fst_lift {A B} (f : A -> option B) l s (g : string -> path) : mapM (lift f) l = Some s ->
+  map (fun x => g (fst x)) l = map (fun x => g (fst x)) s.
+Proof.
+  intros H. apply lift_keys in H. rewrite <- (map_map fst g), <- (map_map fst g s). now rewrite H.
+Qed.
+
+Lemma get_nodes_equiv d : forall h c t pat, abs d h c = Some t -> get_nodes d h c pat = tget_nodes t pat.
+Proof.
+  induction d as [|d IH]; intros h c t pat H.
+  - cbn in *. destruct (lookup h c) as [[| |ch es]|] eqn:E; try discriminate.
+    destruct (mapM (lift (node_den h)) ch) as [ns|] eqn:M; [|discriminate]. injection H as <-.
+    destruct pat as [|p [|q rest]]; try reflexivity. cbn.
+    rewrite (lift_dhas _ _ _ p M). destruct (dhas p ch); [reflexivity|].
+    destruct (String.eqb p all); [|reflexivity]. f_equal. apply (map_fst_lift _ _ _ (fun k => [k]) M).
+  - cbn in H. cbn [get_nodes]. destruct (lookup h c) as [[| |ch es]|] eqn:E; try discriminate.
+    destruct (mapM (lift (abs d h)) ch) as [ss|] eqn:M; [|discriminate]. injection H as <-.
+    destruct pat as [|p rest]; [reflexivity|]. cbn. destruct (String.eqb p all).
+    + rewrite (mapM_lift_rel (abs d h)
+                 (fun k x => match get_nodes d h x rest with Some l => Some (map (cons k) l) | None => None end)
+                 (fun k s => match tget_nodes s rest with Some l => Some (map (cons k) l) | None => None end) ch ss M).
+      * reflexivity.
+      * intros k x y _ Hy. now rewrite (IH _ _ _ rest Hy).
+    + destruct (dget p ch) as [x|] eqn:G.
+      * destruct (lift_dget_Some _ _ _ _ _ M G) as (s & Hs & ->). now rewrite (IH _ _ _ rest Hs).
+      * now rewrite (lift_dget_None _ _ _ _ M G).
+Qed.
+
+(* ------------------------------------------------------------------ add_node_template = functional update of the tree,
+   provided no circuit object is reached twice (the D27 guard) *)
+Lemma flat_ids_app (s1 s2 : list (string * atree)) k t :
+  flat_map (fun x => circ_ids (snd x)) (s1 ++ (k, t) :: s2) =
+  flat_map (fun x => circ_ids (snd x)) s1 ++ circ_ids t ++ flat_map (fun x => circ_ids (snd x)) s2.
+Proof. rewrite flat_map_app. reflexivity. Qed.
+
+Lemma add_node_template_equiv d : forall h c t n nid a,
+  abs d h c = Some t -> NoDup (circ_ids t) -> node_den h nid = Some a ->
+  match add_node_template d h c n nid with
+  | Some h' => exists t', tset_node t n a = Some t' /\ abs d h' c = Some t' /\ circ_ids t' = circ_ids t /\
+                          (forall i ob, lookup h i = Some ob -> ~ In i (circ_ids t) -> lookup h' i = Some ob)
+  | None => tset_node t n a = None
+  end.
+Proof.
+  induction d as [|d IH]; intros h c t n nid a H ND Ha.
+  - cbn in H. cbn [add_node_template]. destruct (lookup h c) as [[| |ch es]|] eqn:E; try discriminate.
+    destruct (mapM (lift (node_den h)) ch) as [ns|] eqn:M; [|discriminate]. injection H as <-.
+    destruct n as [|p rest]; [reflexivity|]. cbn [tset_node]. unfold dhas. destruct (dget p ch) as [x|] eqn:G.
+    + destruct (lift_dget_Some _ _ _ _ _ M G) as (a0 & Ha0 & Hg). rewrite Hg.
+      eexists. split; [reflexivity|]. pose proof (lookup_lt _ _ _ E) as Hlt.
+      pose proof (hset_same h c (OCirc (dset p nid ch) es) Hlt) as Hroot.
+      assert (Hoth : forall i, i <> c -> lookup (hset h c (OCirc (dset p nid ch) es)) i = lookup h i)
+        by (intros; apply hset_other; congruence).
+      remember (hset h c (OCirc (dset p nid ch) es)) as h' eqn:Eh'. clear Eh'.
+      assert (Hst : forall i ob, lookup h i = Some ob -> is_circ ob = false -> lookup h' i = Some ob).
+      { intros i ob Hi Hc. rewrite Hoth; [assumption|]. intros ->. rewrite E in Hi. injection Hi as <-. discriminate. }
+      split; [|split; [reflexivity|]].
+      * cbn. rewrite Hroot.
+        destruct (dget_split _ _ _ G) as (l1 & l2 & -> & Hn).
+        destruct (lift_split _ _ _ _ _ _ M) as (s1 & y & s2 & M1 & Hy & M2 & ->).
+        rewrite (dset_split _ _ _ _ nid Hn). rewrite (dset_split _ _ _ _ a (lift_dget_None _ _ _ _ M1 Hn)).
+        erewrite mapM_app; [reflexivity| |].
+        -- rewrite <- M1. apply mapM_ext_in. intros [k z] Hz. destruct (mapM_Some_in _ _ _ _ M1 Hz) as (w & Hw & _).
+           unfold lift in *. cbn in *. destruct (node_den h z) eqn:N; [|discriminate]. now rewrite (node_den_stable _ _ _ _ N Hst).
+        -- cbn. unfold lift at 1. cbn. rewrite (node_den_stable _ _ _ _ Ha Hst).
+           replace (mapM (lift (node_den h')) l2) with (Some s2); [reflexivity|].
+           rewrite <- M2. apply mapM_ext_in. intros [k z] Hz. destruct (mapM_Some_in _ _ _ _ M2 Hz) as (w & Hw & _).
+           unfold lift in *. cbn in *. destruct (node_den h z) eqn:N; [|discriminate]. now rewrite (node_den_stable _ _ _ _ N Hst).
+      * intros i ob Hi Hni. rewrite Hoth; [assumption|]. intros ->. apply Hni. cbn. auto.
+    + now rewrite (lift_dget_None _ _ _ _ M G).
+  - cbn in H. cbn [add_node_template]. destruct (lookup h c) as [[| |ch es]|] eqn:E; try discriminate.
+    destruct (mapM (lift (abs d h)) ch) as [ss|] eqn:M; [|discriminate]. injection H as <-.
+    destruct n as [|p rest]; [reflexivity|]. cbn [tset_node]. destruct (dget p ch) as [x|] eqn:G.
+    2: now rewrite (lift_dget_None _ _ _ _ M G).
+    destruct (dget_split _ _ _ G) as (l1 & l2 & -> & Hn).
+    destruct (lift_split _ _ _ _ _ _ M) as (s1 & tc & s2 & M1 & Hx & M2 & ->).
+    rewrite (dget_here _ _ _ _ (lift_dget_None _ _ _ _ M1 Hn)).
+    cbn [circ_ids] in ND. rewrite flat_ids_app in ND. inversion ND as [|? ? Hcn NDr]; subst.
+    apply NoDup_app_parts in NDr as (ND1 & NDr & D1). apply NoDup_app_parts in NDr as (NDt & ND2 & D2).
+    specialize (IH h x tc rest nid a Hx NDt Ha). destruct (add_node_template d h x rest nid) as [h'|]; [|now rewrite IH].
+    destruct IH as (tc' & -> & Habs & Hids & Hfr). eexists. split; [reflexivity|].
+    assert (Hkeep : forall (s : list (string * atree)) l, mapM (lift (abs d h)) l = Some s ->
+               (forall i, In i (flat_map (fun x => circ_ids (snd x)) s) -> ~ In i (circ_ids tc)) ->
+               mapM (lift (abs d h')) l = Some s).
+    { intros s l Ms Hdis. rewrite <- Ms. apply mapM_ext_in. intros [k z] Hz.
+      destruct (mapM_Some_in _ _ _ _ Ms Hz) as ([k' w] & Hw & Hin). unfold lift in *. cbn in *.
+      destruct (abs d h z) eqn:N; [|discriminate]. injection Hw as <- <-.
+      erewrite abs_stable; [reflexivity|exact N|]. intros i ob Hi Hc. apply Hfr; [assumption|].
+      destruct (is_circ ob) eqn:C.
+      - apply Hdis. apply in_flat_map. exists (k, a0). split; [assumption|]. cbn. auto.
+      - intros Hin'. destruct (circ_ids_are_circuits _ _ _ _ _ Hx Hin') as (? & ? & E'). rewrite E' in Hi. injection Hi as <-. discriminate. }
+    assert (Hc' : lookup h' c = Some (OCirc (l1 ++ (p, x) :: l2) es)).
+    { apply Hfr; [assumption|]. intros Hin. apply Hcn. apply in_or_app. right. apply in_or_app. now left. }
+    split; [|split].
+    + cbn. rewrite Hc'. rewrite (dset_split _ _ _ _ tc' (lift_dget_None _ _ _ _ M1 Hn)).
+      erewrite mapM_app; [reflexivity| |].
+      * apply Hkeep; [assumption|]. intros i Hi Hit. eapply D1; eauto. apply in_or_app. now left.
+      * cbn. unfold lift at 1. cbn. rewrite Habs. rewrite (Hkeep s2 l2 M2); [reflexivity|].
+        intros i Hi Hit. eapply D2; eauto.
+    + cbn. rewrite (dset_split _ _ _ _ tc' (lift_dget_None _ _ _ _ M1 Hn)). rewrite !flat_ids_app. now rewrite Hids.
+    + intros i ob Hi Hni. apply Hfr; [assumption|]. intros Hin. apply Hni. cbn. right. rewrite flat_ids_app.
+      apply in_or_app. right. apply in_or_app. now left.
+Qed.
+
+(* ------------------------------------------------------------------ deepcopy of a node template: fresh ids, same content *)
+Lemma copy_ops_spec : forall ops h a, mapM (op_den h) ops = Some a ->
+  exists h2 ops', copy_ops h ops = Some (h2, ops') /\ extends h h2 /\ mapM (op_den h2) ops' = Some a.
+Proof.
+  induction ops as [|[oid vs] ops IH]; intros h a H.
+  - injection H as <-. exists h, []. repeat split. apply extends_refl.
+  - apply mapM_cons_inv in H as (o & r & Ho & Hr & ->). unfold op_den in Ho. cbn [fst snd] in Ho. cbn [copy_ops].
+    destruct (lookup h oid) as [[n e dd| |]|] eqn:E; rewrite ?E in Ho; try discriminate. injection Ho as <-.
+    assert (Hr' : mapM (op_den (h ++ [OOp n e dd])) ops = Some r).
+    { rewrite <- Hr. apply mapM_ext_in. intros x Hx. destruct (mapM_Some_in _ _ _ _ Hr Hx) as (y & Hy & _). rewrite Hy.
+      eapply op_den_stable; eauto. intros. eapply extends_lookup; eauto. apply extends_app. }
+    destruct (IH _ _ Hr') as (h2 & ops' & -> & Hext & Hm). exists h2, ((List.length h, vs) :: ops'). split; [reflexivity|].
+    split; [eapply extends_trans; [apply extends_app|eassumption]|].
+    cbn [mapM]. unfold op_den at 1. cbn [fst snd]. rewrite (extends_lookup _ _ _ _ Hext (lookup_alloc_new h (OOp n e dd))). now rewrite Hm.
+Qed.
+Lemma copy_node_spec h nid a : node_den h nid = Some a ->
+  exists h1 nid', copy_node h nid = Some (h1, nid') /\ extends h h1 /\ lookup h nid' = None /\ node_den h1 nid' = Some a.
+Proof.
+  unfold node_den, copy_node. destruct (lookup h nid) as [[|ops|]|] eqn:E; try discriminate. intros H.
+  destruct (copy_ops_spec _ _ _ H) as (h2 & ops' & -> & Hext & Hm). unfold alloc. eexists _, _. split; [reflexivity|].
+  split; [eapply extends_trans; [eassumption|apply extends_app]|]. split.
+  - apply nth_error_None. apply extends_length in Hext. lia.
+  - rewrite lookup_alloc_new. etransitivity; [|exact Hm]. apply mapM_ext_in. intros x Hx.
+    destruct (mapM_Some_in _ _ _ _ Hm Hx) as (y & Hy & _). rewrite Hy. eapply op_den_stable; eauto.
+    intros. eapply extends_lookup; eauto. apply extends_app.
+Qed.
+
+(* ------------------------------------------------------------------ NodeTemplate.update_var on one node object *)
+Lemma ops_update_spec h op var v : forall ops a, mapM (op_den h) ops = Some a ->
+  match ops_update h ops op var v with
+  | Some ops' => exists a', anode_update a op var v = Some a' /\ mapM (op_den h) ops' = Some a'
+  | None => anode_update a op var v = None
+  end.
+Proof.
+  induction ops as [|[oid vs] ops IH]; intros a H.
+  - injection H as <-. reflexivity.
+  - apply mapM_cons_inv in H as (o & r & Ho & Hr & ->). unfold op_den in Ho. cbn [fst snd] in Ho. cbn [ops_update].
+    destruct (lookup h oid) as [[n e dd| |]|] eqn:E; rewrite ?E in Ho; try discriminate. injection Ho as <-. cbn [anode_update].
+    destruct (String.eqb n op).
+    + eexists. split; [reflexivity|]. cbn [mapM]. unfold op_den at 1. cbn [fst snd]. rewrite E. now rewrite Hr.
+    + specialize (IH _ Hr). destruct (ops_update h ops op var v) as [ops'|].
+      * destruct IH as (a' & -> & Hm). eexists. split; [reflexivity|]. cbn [mapM]. unfold op_den at 1. cbn [fst snd]. rewrite E. now rewrite Hm.
+      * now rewrite IH.
+Qed.
+Lemma node_update_var_spec h nid a op var v : node_den h nid = Some a ->
+  match node_update_var h nid op var v with
+  | Some h2 => exists a', anode_update a op var v = Some a' /\ node_den h2 nid = Some a' /\
+                          (forall i, i <> nid -> lookup h2 i = lookup h i)
+  | None => anode_update a op var v = None
+  end.
+Proof.
+  unfold node_den, node_update_var. destruct (lookup h nid) as [[|ops|]|] eqn:E; try discriminate. intros H.
+  pose proof (ops_update_spec h op var v ops a H) as U. destruct (ops_update h ops op var v) as [ops'|]; [|assumption].
+  destruct U as (a' & Ha' & Hm). exists a'. split; [assumption|]. pose proof (lookup_lt _ _ _ E) as Hlt.
+  split; [|intros; apply hset_other; congruence].
+  rewrite hset_same by assumption. etransitivity; [|exact Hm]. apply mapM_ext_in. intros x Hx.
+  destruct (mapM_Some_in _ _ _ _ Hm Hx) as (y & Hy & _). unfold op_den in *.
+  rewrite hset_other; [reflexivity|]. intros Heq. rewrite <- Heq in Hy. rewrite E in Hy. discriminate.
+Qed.
+
+(* ------------------------------------------------------------------ update_var for one target *)
+Lemma upd_one_equiv d r h t n op var v : abs d h r = Some t -> NoDup (circ_ids t) ->
+  match upd_one d r h n op var v with
+  | Some h' => exists t', tupd_one t n op var v = Some t' /\ abs d h' r = Some t' /\ circ_ids t' = circ_ids t
+  | None => tupd_one t n op var v = None
+  end.
+Proof.
+  intros H ND. unfold upd_one, tupd_one. pose proof (get_node_template_equiv d h r t n H) as G.
+  destruct (get_node_template d h r n) as [nid|]; [|now rewrite G]. destruct G as (a & Ha & ->).
+  destruct (copy_node_spec _ _ _ Ha) as (h1 & nid' & -> & Hext & Hfresh & Ha1).
+  pose proof (node_update_var_spec h1 nid' a op var v Ha1) as U.
+  destruct (node_update_var h1 nid' op var v) as [h2|]; [|now rewrite U].
+  destruct U as (a' & -> & Ha2 & Hoth).
+  assert (H2 : abs d h2 r = Some t).
+  { eapply abs_stable; [exact H|]. intros i ob Hi _. rewrite Hoth; [eapply extends_lookup; eauto|]. intros ->. congruence. }
+  pose proof (add_node_template_equiv d h2 r t n nid' a' H2 ND Ha2) as A.
+  destruct (add_node_template d h2 r n nid') as [h3|]; [|assumption].
+  destruct A as (t' & Ht' & Habs & Hids & _). eauto.
+Qed.
+Lemma upd_all_equiv d r op var v ntot : forall targets h t i, abs d h r = Some t -> NoDup (circ_ids t) ->
+  match upd_all d r h targets i ntot op var v with
+  | Some h' => exists t', tupd_all t targets i ntot op var v = Some t' /\ abs d h' r = Some t' /\ circ_ids t' = circ_ids t
+  | None => tupd_all t targets i ntot op var v = None
+  end.
+Proof.
+  induction targets as [|n rest IH]; intros h t i H ND; cbn.
+  - eauto.
+  - pose proof (upd_one_equiv d r h t n op var (pick v i ntot) H ND) as U.
+    destruct (upd_one d r h n op var (pick v i ntot)) as [h'|]; [|now rewrite U].
+    destruct U as (t' & -> & Habs & Hids). assert (ND' : NoDup (circ_ids t')) by now rewrite Hids.
+    specialize (IH h' t' (S i) Habs ND'). destruct (upd_all d r h' rest (S i) ntot op var v); [|assumption].
+    destruct IH as (t'' & ? & ? & Hids'). exists t''. repeat split; try assumption. congruence.
+Qed.
+Lemma update_var_equiv d r h t pat op var v : abs d h r = Some t -> NoDup (circ_ids t) ->
+  match update_var d r h pat op var v with
+  | Some h' => exists t', tupdate_var t pat op var v = Some t' /\ abs d h' r = Some t' /\ circ_ids t' = circ_ids t
+  | None => tupdate_var t pat op var v = None
+  end.
+Proof.
+  intros H ND. unfold update_var, tupdate_var. rewrite (get_nodes_equiv d h r t pat H).
+  destruct (tget_nodes t pat) as [ns|]; [|reflexivity].
+  rewrite (filter_ext (fun n => has_var d h r n op var) (fun n => thas_var t n op var))
+    by (intros; now apply has_var_equiv).
+  now apply upd_all_equiv.
+Qed.
+
+(* ------------------------------------------------------------------ edge attribute update on the root *)
+Lemma update_edge_equiv d r h t s tg upd : abs d h r = Some t -> NoDup (circ_ids t) ->
+  match update_edge r h s tg upd with
+  | Some h' => exists t', tupdate_edge t s tg upd = Some t' /\ abs d h' r = Some t' /\ circ_ids t' = circ_ids t
+  | None => tupdate_edge t s tg upd = None
+  end.
+Proof.
+  intros H ND. unfold update_edge.
+  destruct d as [|d]; cbn in H; destruct (lookup h r) as [[| |ch es]|] eqn:E; try discriminate.
+  - destruct (mapM (lift (node_den h)) ch) as [ns|] eqn:M; [|discriminate]. injection H as <-. cbn.
+    destruct (edges_update es s tg upd) as [es'|]; [|reflexivity]. eexists. split; [reflexivity|]. split; [|reflexivity].
+    pose proof (lookup_lt _ _ _ E) as Hlt. cbn. rewrite hset_same by assumption.
+    replace (mapM (lift (node_den (hset h r (OCirc ch es')))) ch) with (Some ns); [reflexivity|].
+    rewrite <- M. apply mapM_ext_in. intros [k z] Hz. destruct (mapM_Some_in _ _ _ _ M Hz) as (w & Hw & _).
+    unfold lift in *. cbn in *. destruct (node_den h z) eqn:N; [|discriminate].
+    erewrite node_den_stable; eauto. intros i ob Hi Hc. rewrite hset_other; [assumption|].
+    intros <-. rewrite E in Hi. injection Hi as <-. discriminate.
+  - destruct (mapM (lift (abs d h)) ch) as [ss|] eqn:M; [|discriminate]. injection H as <-. cbn.
+    destruct (edges_update es s tg upd) as [es'|]; [|reflexivity]. eexists. split; [reflexivity|]. split; [|reflexivity].
+    pose proof (lookup_lt _ _ _ E) as Hlt. cbn. rewrite hset_same by assumption.
+    replace (mapM (lift (abs d (hset h r (OCirc ch es')))) ch) with (Some ss); [reflexivity|].
+    rewrite <- M. apply mapM_ext_in. intros [k z] Hz. destruct (mapM_Some_in _ _ _ _ M Hz) as ([k' w] & Hw & Hin).
+    unfold lift in *. cbn in *. destruct (abs d h z) eqn:N; [|discriminate]. injection Hw as <- <-.
+    erewrite abs_stable; [reflexivity|exact N|]. intros i ob Hi Hc. rewrite hset_other; [assumption|]. intros <-.
+    rewrite E in Hi. injection Hi as <-. cbn in ND. inversion ND as [|? ? Hr _]; subst. apply Hr.
+    apply in_flat_map. exists (k, a). split; [assumption|]. cbn. auto.
+Qed.
+
+(* ------------------------------------------------------------------ observation *)
+Lemma collect_edges_equiv d : forall h c t, abs d h c = Some t -> collect_edges d h c = Some (tcollect_edges t).
+Proof.
+  induction d as [|d IH]; intros h c t H.
+  - cbn in *. destruct (lookup h c) as [[| |ch es]|]; try discriminate.
+    destruct (mapM (lift (node_den h)) ch); [|discriminate]. injection H as <-. reflexivity.
+  - cbn in H. cbn [collect_edges]. destruct (lookup h c) as [[| |ch es]|]; try discriminate.
+    destruct (mapM (lift (abs d h)) ch) as [ss|] eqn:M; [|discriminate]. injection H as <-. cbn [tcollect_edges].
+    rewrite (mapM_lift_rel (abs d h)
+               (fun k x => match collect_edges d h x with Some l => Some (map (prefix_edge k) l) | None => None end)
+               (fun k s => Some (map (prefix_edge k) (tcollect_edges s))) ch ss M).
+    + clear M. replace (mapM (fun e : string * atree => Some (map (prefix_edge (fst e)) (tcollect_edges (snd e)))) ss)
+        with (Some (map (fun e : string * atree => map (prefix_edge (fst e)) (tcollect_edges (snd e))) ss)).
+      * now rewrite flat_map_concat_map.
+      * induction ss as [|x ss IHs]; cbn; [reflexivity|]. now rewrite <- IHs.
+    + intros k x y _ Hy. now rewrite (IH _ _ _ Hy).
+Qed.
+Lemma nodes_of_equiv d r h t : abs d h r = Some t -> nodes_of d r h = tnodes_of d t.
+Proof.
+  intros H. unfold nodes_of, tnodes_of. rewrite (get_nodes_equiv d h r t _ H).
+  destruct (tget_nodes t (all_pat d)) as [ns|]; [|reflexivity]. apply mapM_ext_in. intros n _.
+  pose proof (get_node_template_equiv d h r t n H) as G. destruct (get_node_template d h r n) as [nid|].
+  - destruct G as (a & -> & ->). reflexivity.
+  - now rewrite G.
+Qed.
+Lemma overrides_ext f g nv : (forall p, f p = g p) -> overrides f nv = overrides g nv.
+Proof.
+  intros H. unfold overrides. replace (mapM _ nv) with
+    (mapM (fun e : nv_entry => let '(pat, op, var, v) := e in
+             match g pat with
+             | Some ns => Some (map (fun iv => ((snd iv, op, var), pick v (fst iv) (List.length ns))) (combine (seq 0 (List.length ns)) ns))
+             | None => None end) nv); [reflexivity|].
+  apply mapM_ext_in. intros [[[pat op] var] v] _. now rewrite H.
+Qed.
+Lemma observe_equiv d r h t nv : abs d h r = Some t -> observe d r h nv = tobserve d t nv.
+Proof.
+  intros H. unfold observe, tobserve. rewrite (nodes_of_equiv d r h t H), (collect_edges_equiv d h r t H).
+  rewrite (overrides_ext (get_nodes d h r) (tget_nodes t) nv) by (intros; now apply get_nodes_equiv).
+  destruct (tnodes_of d t); [|reflexivity]. destruct (overrides (tget_nodes t) nv); reflexivity.
+Qed.
+
+(* ------------------------------------------------------------------ histories *)
+Lemma step_refines d r h t o : abs d h r = Some t -> NoDup (circ_ids t) ->
+  abs d (fst (stepI d r h o)) r = Some (fst (stepS d t o)) /\ snd (stepI d r h o) = snd (stepS d t o) /\
+  circ_ids (fst (stepS d t o)) = circ_ids t.
+Proof.
+  intros H ND. destruct o as [pat op var v|s tg upd|nv]; cbn.
+  - pose proof (update_var_equiv d r h t pat op var v H ND) as U. destruct (update_var d r h pat op var v).
+    + destruct U as (t' & -> & ? & ?). cbn. auto.
+    + rewrite U. cbn. auto.
+  - pose proof (update_edge_equiv d r h t s tg upd H ND) as U. destruct (update_edge r h s tg upd).
+    + destruct U as (t' & -> & ? & ?). cbn. auto.
+    + rewrite U. cbn. auto.
+  - repeat split; [assumption|]. now apply observe_equiv.
+Qed.
+Theorem history_refines d r : forall ops h t, abs d h r = Some t -> NoDup (circ_ids t) ->
+  abs d (fst (runI d r h ops)) r = Some (fst (runS d t ops)) /\ snd (runI d r h ops) = snd (runS d t ops).
+Proof.
+  induction ops as [|o ops IH]; intros h t H ND; cbn; [auto|].
+  destruct (step_refines d r h t o H ND) as (Ha & Ho & Hids).
+  destruct (stepI d r h o) as [h1 out]. destruct (stepS d t o) as [t1 out']. cbn in *. subst out'.
+  assert (ND1 : NoDup (circ_ids t1)) by now rewrite Hids.
+  destruct (IH h1 t1 Ha ND1) as (Hb & Hc). destruct (runI d r h1 ops) as [h2 outs]. destruct (runS d t1 ops) as [t2 outs'].
+  cbn in *. subst. auto.
+Qed.
+Corollary history_refines_guard d r ops h t : abs d h r = Some t -> no_shared_subcircuit t = true ->
+  abs d (fst (runI d r h ops)) r = Some (fst (runS d t ops)) /\ snd (runI d r h ops) = snd (runS d t ops).
+Proof. intros H G. apply history_refines; [assumption|]. now apply nodupb_NoDup. Qed.
+
+(* ------------------------------------------------------------------ the frame property of the specification:
+   a functional update at path n changes the node at n and no other (first-match dictionaries, no NoDup needed).
+   `same_addr t n m`: do n and m address the same node of t (components beyond the leaf level are ignored, as the code does) *)
+Fixpoint same_addr (t : atree) (n m : path) : bool :=
+  match n, m with
+  | p :: n', q :: m' =>
+    String.eqb p q && match t with
+                      | ALeaf _ _ _ => true
+                      | AInner _ ss _ => match dget p ss with Some s => same_addr s n' m' | None => true end
+                      end
+  | _, _ => false
+  end.
+Lemma dget_dset {V} k k' (v : V) l : dget k' (dset k v l) = if String.eqb k' k then Some v else dget k' l.
+Proof.
+  induction l as [|[k0 v0] l IH]; cbn.
+  - destruct (String.eqb k' k); reflexivity.
+  - destruct (String.eqb k k0) eqn:E; cbn.
+    + apply String.eqb_eq in E as <-. destruct (String.eqb k' k); reflexivity.
+    + destruct (String.eqb k' k0) eqn:E'.
+      * apply String.eqb_eq in E' as ->. rewrite String.eqb_sym in E. now rewrite E.
+      * assumption.
+Qed.
+Lemma tget_tset : forall n t a t' m, tset_node t n a = Some t' ->
+  tget_node t' m = if same_addr t n m then Some a else tget_node t m.
+Proof.
+  induction n as [|p n IH]; intros t a t' m H; [discriminate|].
+  destruct m as [|q m]; [destruct t'; reflexivity|]. cbn [same_addr].
+  destruct t as [c ns es|c ss es]; cbn in H.
+  - destruct (dhas p ns); [|discriminate]. injection H as <-. cbn. rewrite dget_dset. rewrite String.eqb_sym.
+    destruct (String.eqb p q); reflexivity.
+  - destruct (dget p ss) as [s|] eqn:G; [|discriminate]. destruct (tset_node s n a) as [s'|] eqn:S; [|discriminate].
+    injection H as <-. cbn. rewrite dget_dset. rewrite (String.eqb_sym q p). destruct (String.eqb p q) eqn:E; cbn.
+    + apply String.eqb_eq in E as <-. rewrite G. now apply IH.
+    + reflexivity.
+Qed.
+
+(* ------------------------------------------------------------------ probes used by the computed witnesses *)
+Definition probe (k : okey) (outs : list hout) : Z :=
+  match last outs ODone with
+  | OObs ns _ => match ol_get ns k with Some (Sc q) => Qnum (this q) | _ => 0%Z end
+  | _ => 0%Z
+  end.
